@@ -311,6 +311,28 @@ func ScaledFamilies(big bool) []Scaled {
 		add(fmt.Sprintf("vars-%d-use", n), b.String()+"print v0+2\n")
 		add(fmt.Sprintf("vars-%d-use2", n), b.String()+"print v0+(2+3)\n")
 	}
+	// operand values 0..40 (they coincide with opcode numbers: a peephole that inspects raw code bytes would
+	// confuse them): N variables, then a declaration / assignment / print that ends in slot N-1 or constant N
+	// as the LAST statement of the program and of a block
+	for n := 1; n <= 40; n++ {
+		var v strings.Builder
+		for i := 0; i < n; i++ {
+			fmt.Fprintf(&v, "var v%d=%d\n", i, i+100)
+		}
+		last := fmt.Sprintf("v%d", n-1)
+		add(fmt.Sprintf("opbyte-top-var-%d", n), v.String()+"var z = "+last)
+		add(fmt.Sprintf("opbyte-top-eval-%d", n), v.String()+"eval "+last+" = "+last)
+		add(fmt.Sprintf("opbyte-block-var-%d", n), "def b {\n"+v.String()+"var z = "+last+"\n}\nprint 1")
+		add(fmt.Sprintf("opbyte-block-field-%d", n), "def b {\n"+v.String()+"f = "+last+"\n}\nprint 2")
+		add(fmt.Sprintf("opbyte-nested-%d", n), v.String()+"def b { var w = "+last+"; def c { var u = w } }")
+		// constants: the n-th constant used last
+		var cs strings.Builder
+		for i := 0; i < n; i++ {
+			fmt.Fprintf(&cs, "print %d\n", i+200)
+		}
+		add(fmt.Sprintf("opbyte-const-%d", n), cs.String()+"var z = 999")
+		add(fmt.Sprintf("opbyte-const-block-%d", n), cs.String()+"def b { var z = 999 }")
+	}
 	// every pushing instruction kind exactly at the operand-stack limit
 	for _, n := range []int{1022, 1023, 1024} {
 		var b strings.Builder
